@@ -327,6 +327,14 @@ impl<'a> Exec<'a> {
         }
         match region {
             Region::Claim => cfg.claimable,
+            // the panicking `by_value` on an arena without a chunk allocates the first chunk; when the base allocator
+            // is set up to refuse requests that ends in `handle_alloc_error` (an abort, which is the documented outcome
+            // for a panicking method): not part of a fault-injecting history
+            Region::ByValue => {
+                let mut st = StatsSnap::default();
+                arena.d_stats(&mut st);
+                st.count > 0 || slab::with_current(|s| s.cfg.fail_mask) == 0
+            }
             _ => true,
         }
     }
